@@ -363,6 +363,25 @@ fn mate_in_one(ctx: &mut Ctx, s: &Session, _l1: &[Mv], tf: &ThreeFold) -> Step {
         ctx.stats.bump("c12.pass0-over-cap");
         return Ok(());
     }
+    // F-CLOCK in the mate hunt: the shipped wall-clock limit with a deadline that cannot be
+    // represented ("no limit").  The simulated search above ended by itself before its clock
+    // expired, so under a limit that never expires the real one performs the same finite
+    // search - and owes the same mate.  (No tape draw: which duration is decided by the
+    // poll count, so that every other run stays what it was.)
+    if !mates.is_empty() && o.polls <= big && o.score == mate1(s.model.stm) {
+        let d = [std::time::Duration::MAX, std::time::Duration::from_secs(u64::MAX), std::time::Duration::from_secs(i64::MAX as u64), std::time::Duration::from_secs(1 << 40)][(o.polls % 4) as usize];
+        ctx.stats.bump("fault.clock.unrepresentable-deadline");
+        ctx.stats.bump("c12.searches-under-the-real-unlimited-limit");
+        let o3 = op(Op::Search, || {
+            let t = chess_engine::DurationTimeout::new(d);
+            let mut e = Engine::default();
+            e.positional = positional;
+            e.max_depth = SENTINEL;
+            let (mv, score) = e.search(&s.board, tf, t);
+            Outcome { mv: mv.map(sut::unmv), score, completed: if e.max_depth == SENTINEL { None } else { Some(e.max_depth) }, polls: 0 }
+        });
+        check_mate1(ctx, &s.model, &fen, &mates, u64::MAX, &o3)?;
+    }
     // around the cost of the first pass and a drawn small value
     let mut ks: Vec<u64> = vec![ctx.tape.log_uniform(4096) as u64];
     if !mates.is_empty() {
